@@ -221,6 +221,39 @@ def public_methods_in_order(cls) -> List[str]:
     return [k for k, v in vars(cls).items() if callable(v) and not k.startswith("_")]
 
 
+def _norm_name(name: str) -> str:
+    return name.replace("_", "").lower()
+
+
+def methods_for(cls, sd: "ServiceDesc") -> List[str]:
+    """The Python method of `cls` (generated Stub or Base) for every rpc of the service, in rpc order.  Matched by
+    NAME up to case and underscores (whatever re-casing the plugin applies; `from` -> `from_`), so that helper
+    methods a generated class may carry, or another emission order, do not matter; definition order only breaks
+    ties.  LookupError if an rpc has no method at all."""
+    public = public_methods_in_order(cls)
+    by_norm: Dict[str, List[str]] = {}
+    for n in public:
+        by_norm.setdefault(_norm_name(n), []).append(n)
+    out: List[Optional[str]] = []
+    used = set()
+    for m in sd.methods:
+        cands = [n for n in by_norm.get(_norm_name(m.name), []) if n not in used]
+        if cands:
+            out.append(cands[0])
+            used.add(cands[0])
+        else:
+            out.append(None)
+    if any(n is None for n in out):
+        rest = [n for n in public if n not in used]
+        missing = [i for i, n in enumerate(out) if n is None]
+        if len(rest) < len(missing):
+            raise LookupError(f"service {sd.name}: no method of {cls.__name__} for rpc(s) "
+                              f"{[sd.methods[i].name for i in missing]} (public methods: {public})")
+        for i, n in zip(missing, rest):      # names the harness cannot relate: fall back to definition order
+            out[i] = n
+    return out  # type: ignore[return-value]
+
+
 def load_cases(scratch: str, names: List[str]) -> Dict[str, Case]:
     gen_dir = os.path.join(scratch, "gen")
     if gen_dir not in sys.path:
